@@ -8,6 +8,7 @@ import (
 	"go/token"
 	"go/types"
 	"math"
+	"net"
 	"runtime"
 	"sort"
 	"strings"
@@ -568,4 +569,53 @@ func init() {
 		cell := value(s)
 		return tuple{&cell, iface{}}
 	})
+}
+
+// ---- net: textual parsing runs natively on concrete strings ----
+
+func bytesToValues(b []byte) []value {
+	if b == nil {
+		return []value(nil)
+	}
+	out := make([]value, len(b))
+	for k, x := range b {
+		out[k] = x
+	}
+	return out
+}
+
+func concreteBytes(v []value) ([]byte, bool) {
+	out := make([]byte, len(v))
+	for k, x := range v {
+		b, ok := x.(uint8)
+		if !ok {
+			return nil, false
+		}
+		out[k] = b
+	}
+	return out, true
+}
+
+func init() {
+	reg("net.ParseIP", func(fr *frame, a []value) value {
+		return bytesToValues(net.ParseIP(a[0].(string)))
+	})
+	reg("net.SplitHostPort", func(fr *frame, a []value) value {
+		h, p, err := net.SplitHostPort(a[0].(string))
+		if err != nil {
+			return tuple{"", "", fr.i.newError(err.Error())}
+		}
+		return tuple{h, p, iface{}}
+	})
+	reg("net.JoinHostPort", func(fr *frame, a []value) value {
+		return net.JoinHostPort(a[0].(string), a[1].(string))
+	})
+	reg("(net.IP).String", func(fr *frame, a []value) value {
+		b, ok := concreteBytes(a[0].([]value))
+		if !ok {
+			return "<sym-ip>"
+		}
+		return net.IP(b).String()
+	})
+	reg("(*net.IPNet).String", func(fr *frame, a []value) value { return "<ipnet>" })
 }
